@@ -39,7 +39,10 @@ Encode(x) ==
      ELSE [e |-> size, m |-> top3]
 
 LimitBits(net) == IF net = "regtest" THEN [e |-> 32, m |-> 8388607] ELSE [e |-> 29, m |-> 65535]
-Limit(net) == Decode(LimitBits(net).e, LimitBits(net).m)
+\* (zero-arity constant definitions: TLC evaluates each once)
+LimitRegtest == Decode(32, 8388607)
+LimitOther == Decode(29, 65535)
+Limit(net) == IF net = "regtest" THEN LimitRegtest ELSE LimitOther
 
 (***************************************************************************)
 (* Timestamp rule.                                                         *)
